@@ -51,8 +51,12 @@ def run(ctx):
     gen = Block.deserialize(genesis_block_data)
     gid = enc.sha256d(genesis_block_data[:1 + 1 + 32 + 32 + 4 + 32 + 4 + 96])
     now = 2_000_000_000
-    # ---- (i) every checkpoint height: wrong id refused, right id accepted; both entry points
-    for h in sorted(T):
+    # ---- (i) every checkpoint height: wrong id refused, right id accepted; both entry points; on a node that has only
+    #      the genesis block AND on a node whose head is already far above every checkpoint (a late, competing block)
+    high = zero.add_block_no_validation(cand_block(HORIZON + 37000, gid, 1_699_999_000))
+    mid = zero.add_block_no_validation(cand_block(1234, gid, 1_699_999_001))
+    states = [('genesis-only', zero), ('head-above-all-checkpoints', high), ('head-at-1234', mid)]
+    for (sname, zero_), h in [(s_, h_) for s_ in states for h_ in sorted(T)]:
         right = bytes.fromhex(T[h])
         blk = cand_block(h, gid, 1_700_000_000 + h)
         for entry in ('validate', 'add_block'):
@@ -63,15 +67,15 @@ def run(ctx):
                 n += 1
                 try:
                     if entry == 'validate':
-                        consensus.validate_block_in_coinstate(b, zero)
+                        consensus.validate_block_in_coinstate(b, zero_)
                     else:
-                        zero.add_block(b, now)
+                        zero_.add_block(b, now)
                     acc = True
                 except Exception:
                     acc = False
                 if acc != expect_accept:
                     V('checkpoint-%s-%s' % (kind, 'accepted' if acc else 'refused'),
-                      "height %d via %s: block with %s is %s" % (h, entry, kind, 'accepted' if acc else 'refused'),
+                      "height %d via %s on a node with %s: block with %s is %s" % (h, entry, sname, kind, 'accepted' if acc else 'refused'),
                       {'k': 'cp', 'h': h})
                 distinct += 1
     # ---- (ii) horizon +-1
